@@ -14,7 +14,7 @@ TRUST_COMMON = [
 def c05(tier, seed):
     e3 = build_e3()
     r = Result("model_checking",
-               "histories: every permutation of every subset (size<=k) of 17 entries sharing one file (15 types, one of them spelling the file with `..`, and two further instantiations of a generic member whose arguments live in other files), folded through the real merge() and exported through the real T::export() (TS_RS_EXPORT_DIR unset; subsets <= 3 also with an absolute directory) with the file compared to the reference model after every step plus re-export of every member; schedules: every interleaving of 12 (thorough 15) 2-3 thread programs of real export()/export_all() calls up to the preemption bound, final tree compared to the reference model. distinct = distinct final file contents / (program, final tree) pairs",
+               "histories: every permutation of every subset (size<=k) of 17 entries sharing one file (15 types, one of them spelling the file with `..`, and two further instantiations of a generic member whose arguments live in other files), folded through the real merge() and exported through the real T::export() (TS_RS_EXPORT_DIR unset; subsets <= 3 also with an absolute directory) with the file compared to the reference model after every step plus re-export of every member; schedules: every interleaving, up to the preemption bound, of 14 (thorough 17) hand-picked 2-3 thread programs of real export()/export_all() calls and of all 300 unordered pairs of one-call threads over the 12 universe types x {export, export_all} (a call racing with itself included), final tree compared to the reference model. distinct = distinct final file contents / (program, final tree) pairs",
                "explicit-state exploration of export histories + preemption-bounded stateless schedule exploration of the real exporter")
     k_pure, k_fs, bound = (5, 4, 2) if tier == "quick" else (6, 5, 3)
     m = run_sliced(e3, ["merge", "--max-pure", str(k_pure), "--max-fs", str(k_fs)])
@@ -143,7 +143,7 @@ def c08(tier, seed):
 def c13(tier, seed):
     e3 = build_e3()
     r = Result("model_checking",
-               "owned nondeterminism, explored exhaustively on the implementation: (a) order of the statements in every generated visit_dependencies body (hook H2): all permutations for bodies <= 5 statements, rotations+reversals above, for every corpus type (50 graph roots x 3 placement configurations, 9 universe types, 13 shared-file types), each run twice; (b) every order of every k-subset of universe roots (k=3 quick, 4 thorough) x every assignment of the entry points export() / export_all() to the roots (x forward/reversed visits when all use export_all); (c) every interleaving of 2-3 exporting threads up to the preemption bound (C05's scheduler). Oracle: identical trees and identical name/decl/export_to_string/dependency sets, equal to the reference model. distinct = distinct subjects",
+               "owned nondeterminism, explored exhaustively on the implementation: (a) order of the statements in every generated visit_dependencies body (hook H2): all permutations for bodies <= 5 statements, rotations+reversals above, for every corpus type (50 graph roots x 3 placement configurations, 9 universe types, 13 shared-file types), each run twice; (b) every order of every k-subset of universe roots (k=3 quick, 4 thorough) x every assignment of the entry points export() / export_all() to the roots (x forward/reversed visits when all use export_all); (c) every interleaving of 2-3 exporting threads up to the preemption bound (C05's scheduler and programs: 14/17 hand-picked plus all 300 pairs of one-call threads). Oracle: identical trees and identical name/decl/export_to_string/dependency sets, equal to the reference model. distinct = distinct subjects",
                "exhaustive enumeration of visit orders, root orders and preemption-bounded thread schedules on the real exporter")
     args = ["determ"] + (["--thorough"] if tier == "thorough" else [])
     m = run_sliced(e3, args, slices=32)
